@@ -22,8 +22,8 @@ func Run(ctx *core.Ctx) {
 	model(ctx)
 	family(ctx)
 	literals(ctx)
-	random(ctx, ctx.Pick(6000, 120000))
-	printNodes(ctx, ctx.Pick(1500, 20000))
+	random(ctx, ctx.Pick(6000, 500000))
+	printNodes(ctx, ctx.Pick(1500, 80000))
 }
 
 func cfg(mode string) string {
